@@ -137,7 +137,15 @@ class Facts:
 
     # ------------------------------------------------------------ queries
     def is_zero(self, p):
-        return self.elim(p).is_zero()
+        e = self.elim(p)
+        if e.is_zero():
+            return True
+        # integral domain: p * n = 0 with n != 0 forces p = 0
+        if self.nonzero and e.nterms() <= 64:
+            for nz in self.nonzero:
+                if nz.nterms() <= 64 and self.elim(e * nz).is_zero():
+                    return True
+        return False
 
     def is_nonzero(self, p):
         p = self.norm(p)
@@ -160,6 +168,14 @@ class Facts:
     def _factors_nonzero(self, p):
         if self._known_unit(p):
             return True
+        if p.nterms() == 1:
+            # a monomial c * x1^e1 * ...: non-zero iff c != 0 (mod char) and every variable is a known non-zero element
+            (m, c), = p.t.items()
+            if self.char and c % self.char == 0:
+                return False
+            return all(self._known_unit(V(v)) for v, _ in m)
+        if any(e > 4096 for m in p.t for _, e in m):
+            return False          # no factorisation attempt on astronomically large exponents
         c, facs = factor(p)
         if c % self.char == 0 if self.char else c == 0:
             return False
@@ -187,6 +203,11 @@ class Facts:
         if self.is_zero(p):
             raise Infeasible("non-zero hypothesis on a zero value")
         if p.is_const():
+            return
+        if any(e > 4096 for m in p.t for _, e in m):
+            if not self._known_unit(p):
+                self.nonzero.append(p)
+            self.log.append(('nonzero', p))
             return
         c, facs = factor(p)
         for f, _ in facs:
@@ -242,7 +263,10 @@ class Facts:
             pe = self.elim(p)        # p = 0 <=> elim(p) = 0 (the N's are non-zero)
             if pe.is_zero():
                 return [(self, [])]
-        c, facs = factor(pe)
+        if any(e > 4096 for m in pe.t for _, e in m):
+            c, facs = 1, [(pe, 1)]
+        else:
+            c, facs = factor(pe)
         cands = []
         for f, _ in facs:
             fn = self.norm(f)
@@ -295,7 +319,7 @@ class Facts:
         if best is None:
             # monic in some variable: keep it as a rewrite rule  v^d -> -(lower part)/lc
             for v in sorted(g.vars()):
-                if v.startswith('nu') or any(v == rv for rv, _, _ in self.rules):
+                if v.startswith('nu'):
                     continue
                 d = g.degree_in(v)
                 cs = g.coeffs_in(v)
@@ -340,6 +364,19 @@ class Facts:
         return derived
 
     def _renormalise(self):
+        # rewrite rules must be mutually consistent: reducing the head of one rule with the others must give its right-hand side
+        for i, (v, k, rhs) in enumerate(self.rules):
+            others = [r for j, r in enumerate(self.rules) if j != i]
+            if not others:
+                continue
+            saved = self.rules
+            self.rules = others
+            try:
+                d = self.norm(V(v) ** k - rhs)
+            finally:
+                self.rules = saved
+            if d.is_const() and not d.is_zero():
+                raise Infeasible("rewrite rules contradict each other")
         self.nus = [(n, self.norm(N)) for n, N in self.nus]
         newnz = []
         for nz in self.nonzero:
